@@ -61,4 +61,39 @@ Proof.
   apply canon_encode; assumption.
 Qed.
 
+(* ---- IDs: ID = hash of the encoding (BlockHeader.Init, Transaction.Init); the hash is arbitrary ---- *)
+Variable hash : list N -> list N.
+Definition id_of (fuel : nat) (s : schema) (vs : list value) : list N := hash (encode_struct S E fuel s vs).
+
+(* DataAccess stores Encode v; getBlockHeaderFrom decodes the stored bytes leniently and sets ID := hash(stored bytes);
+   NewBlockHeader / Init recompute ID := hash(Encode(decoded)).  All of these agree with the ID before storing. *)
+Theorem id_stable_store_load : forall fuel s vs, wt_struct S E fuel s vs -> full fuel vs -> increasing 0 s = true ->
+  (Z.of_nat (length (encode_struct S E fuel s vs)) < 2^62)%Z ->
+  let stored := encode_struct S E fuel s vs in
+  exists v', Decode S E fuel s stored = Ok v' /\
+             hash stored = id_of fuel s vs /\            (* ID assigned by the getter *)
+             id_of fuel s v' = id_of fuel s vs /\         (* ID after Init() of the loaded value *)
+             encode_struct S E fuel s v' = stored.        (* storing it again writes the same bytes *)
+Proof.
+  intros fuel s vs Hwt Hfull Hinc Hs stored.
+  exists (canon_struct S E fuel s vs). split; [apply decode_encode; auto|].
+  assert (Hc : encode_struct S E fuel s (canon_struct S E fuel s vs) = stored) by (apply canon_encode; assumption).
+  split; [reflexivity|]. split; [unfold id_of; rewrite Hc; reflexivity|exact Hc].
+Qed.
+
+(* transactions are loaded with NewTransaction = DecodeStrict, then ID := hash(Encode(decoded)) *)
+Theorem id_stable_store_load_strict : forall fuel s vs, wt_struct S E (Datatypes.S fuel) s vs -> full (Datatypes.S fuel) vs ->
+  Forall not_nil vs -> increasing 0 s = true ->
+  (Z.of_nat (length (encode_struct S E (Datatypes.S fuel) s vs)) < 2^62)%Z ->
+  let stored := encode_struct S E (Datatypes.S fuel) s vs in
+  exists v', DecodeStrict S E (Datatypes.S fuel) s stored = Ok v' /\
+             id_of (Datatypes.S fuel) s v' = id_of (Datatypes.S fuel) s vs /\
+             encode_struct S E (Datatypes.S fuel) s v' = stored.
+Proof.
+  intros fuel s vs Hwt Hfull Hnn Hinc Hs stored.
+  exists (canon_struct S E (Datatypes.S fuel) s vs). split; [apply decode_strict_encode; auto|].
+  assert (Hc : encode_struct S E (Datatypes.S fuel) s (canon_struct S E (Datatypes.S fuel) s vs) = stored) by (apply canon_encode; assumption).
+  split; [unfold id_of; rewrite Hc; reflexivity|exact Hc].
+Qed.
+
 End Stable.
